@@ -41,6 +41,7 @@ type ProcScript struct {
 	StartFail []bool                      // per launch index: exec fails
 	Children  int                         // modelled descendants in the same process group (C06)
 	Hold      func(w *World, pc int) bool // when true the next script action (index pc) is not offered yet
+	DieAfter  time.Duration               // a catchable lethal signal takes this long to kill the process (SIGKILL is immediate)
 }
 
 func (ps *ProcScript) launch(i int) []Action {
@@ -129,6 +130,7 @@ type FProc struct {
 	bySig     bool
 	inCleanup bool
 	dying     bool // lethal signal received, death pending
+	dieAt     time.Duration // not before this virtual time (slowly dying processes)
 	dieCode   int
 	stdout    *pipe
 	stderr    *pipe
@@ -318,13 +320,19 @@ func (f *FProc) Stop(sig int, parentOnly bool) error {
 		}
 		return syscall.ESRCH
 	}
+	if sig < 0 || sig > 64 {
+		// kill(2): EINVAL, nothing is delivered
+		ev.Data = "EINVAL"
+		w.addEvent(ev)
+		return syscall.EINVAL
+	}
 	if f.exited {
 		ev.Data = "zombie"
 	}
 	w.addEvent(ev)
 	f.Signals = append(f.Signals, ev)
-	if f.exited {
-		return nil
+	if f.exited || sig == 0 {
+		return nil // signal 0 only tests for existence
 	}
 	lethal := false
 	code := -1
@@ -356,6 +364,12 @@ func (f *FProc) Stop(sig int, parentOnly bool) error {
 	if lethal && !f.dying {
 		f.dying = true
 		f.dieCode = code
+		f.dieAt = 0
+		if f.ps != nil && f.ps.DieAfter > 0 && sig != int(syscall.SIGKILL) {
+			f.dieAt = w.now() + f.ps.DieAfter
+		}
+	} else if lethal && sig == int(syscall.SIGKILL) {
+		f.dieAt = 0
 	}
 	return nil
 }
